@@ -327,3 +327,36 @@ func VerifC01Seq() {
 	}
 	zzverif.Cover("done")
 }
+
+// VerifC03SymKeys: the key names themselves are symbolic (over the documented alphabet, every byte
+// > '$'): one name of 1 byte and one of 2 bytes under the prefix, so that equal names, a name that
+// is a prefix of the other and names on either side of every concrete range bound all occur; after
+// a bounded history a point read and a range read (any of the fixed intervals, any limit) at a
+// readable revision agree with the reference snapshot.
+func VerifC03SymKeys() {
+	saved := vNames
+	defer func() { vNames = saved }()
+	a := zzverif.Bytes("name0", 1)
+	b := zzverif.Bytes("name1", 2)
+	for _, c := range [][]byte{a, b} {
+		for i := range c {
+			zzverif.Assume(c[i] > '$')
+		}
+	}
+	k0 := append([]byte("/r/"), a...)
+	k1 := append([]byte("/r/"), b...)
+	vNames = [][]byte{k0, k1}
+	w := vNewWorld(2)
+	w.history()
+	r := w.readRev("R")
+	if zzverif.Choose("read", 2) == 0 {
+		w.checkGet(w.key("rd"), r)
+	} else {
+		rg := vRanges[zzverif.Choose("range", len(vRanges))]
+		w.checkList(rg[0], rg[1], r, zzverif.Choose("limit", 3))
+	}
+	if zzverif.HasPrefix(k1, k0) {
+		zzverif.Cover("one-name-prefix-of-the-other")
+	}
+	zzverif.Cover("done")
+}
